@@ -2,7 +2,7 @@
    (Gen/c03_constants.v from numbers/constants.py class TransportTuning; Gen/c14_message_id.v from
    messagemanager.py MessageManager._next_message_id).  A change of the source constants or of the successor
    formula regenerates the Gen files and breaks these lemmas; the correspondence streams then look for the failing history. *)
-From Coq Require Import ZArith QArith List.
+From Coq Require Import ZArith QArith List Lia.
 From Verif Require Import Lib.Py.
 From Verif Require Gen.c03_constants Gen.c14_message_id.
 From Verif Require Import Model.C18.
@@ -16,7 +16,15 @@ Lemma observation_reset_time_is_source :
 Proof. reflexivity. Qed.
 Lemma max_retransmit_is_source : MAX_RETRANSMIT = c03_constants.tt_MAX_RETRANSMIT c03_constants.default_transport_tuning.
 Proof. reflexivity. Qed.
+
+(* robust against equivalent spellings of the successor in the source (Z.land either way round, or mod 65536) *)
+Ltac mid16 :=
+  cbn [c14_message_id.mmids_message_id fst snd];
+  change 65535 with (Z.ones 16); change 65536 with (2 ^ 16);
+  repeat rewrite (Z.land_comm (Z.ones 16));
+  repeat rewrite Z.land_ones by (vm_compute; discriminate);
+  first [reflexivity | repeat (f_equal; try lia)].
 Lemma next_message_id_is_source : forall s,
   c14_message_id.next_message_id {| c14_message_id.mmids_message_id := message_id s |}
   = Ok ({| c14_message_id.mmids_message_id := message_id (fst (_next_message_id s)) |}, snd (_next_message_id s)).
-Proof. intros s. destruct s; reflexivity. Qed.
+Proof. intros s. unfold c14_message_id.next_message_id, _next_message_id, mm_set_message_id. cbn [fst snd]. cbn [message_id]. mid16. Qed.
